@@ -132,4 +132,3 @@ func TestC20Burst(t *testing.T) {
 	}
 	RunCheck(t, c)
 }
-
